@@ -15,6 +15,11 @@ CHECKS = {
  'C02': dict(ref='§4 C02', note=BASE + 'Root::verify_role is the C01 oracle V(root, doc); <=2 (quick) / <=3 (thorough) adopted hops plus a terminating probe; longer chains outside the claim.'),
  'C03': dict(ref='§4 C03', note=BASE + 'Histories of 2..3 (quick) / 2..4 (thorough) cycles composed from per-function summaries; one root hop per cycle; one key per online role; the shipped root is the same in all cycles; root key holders do not equivocate (one root document per version / per N.root.json). Two recorded findings (trusted root not persisted) are excluded by class and re-demonstrated natively on every run.'),
  'C04': dict(ref='§4 C04', note=BASE + 'Instants are mathematical integers that are only compared; every Utc::now() is a fresh unconstrained instant; Root::verify_role is the C01 oracle here.'),
+ 'C06': dict(ref='§4 C06', note=BASE + 'read_target, target_digest_and_filename, fetch_target, fetch_sha256, fetch_max_size, DigestAdapter::poll_next and the max_size_adapter closure run from MIR and are drained as a stream of <=2 (quick) / <=3 (thorough) chunks with an optional endless tail; Targets::find_target is an oracle here (C07). A native sweep (696 cases: bit flips, truncations, extensions, endless, substitution, transport errors; top-level and delegated; both consistent settings) validates the stream models against the real library.'),
+ 'C09': dict(ref='§4 C09', note=BASE + 'Per-file bounds on all paths (not only successful ones) for timestamp/snapshot/targets/root/delegated files with <=2 chunks; delegation shapes flat / nested / self- and mutually delegating with unwinding depth 6; byte counts that wrap u64 are outside the claim. Native size recipes (exact size, one byte more, endless) run on every check.'),
+ 'C11': dict(ref='§4 C11', note='Trusted base: serde_json drives the Formatter protocol as documented; CompactFormatter writes its fixed bytes; BTreeMap iterates in byte order; str::nfc is the identity on ASCII (symbolic part is ASCII: printable, quote, backslash, controls; keys of 1..2 bytes, 2 members quick / 3 thorough, one nested object). NFC and multi-byte behaviour is validated natively on all key sets of size <=3 over a 13-symbol alphabet plus an NFC corpus, against a Python reference encoder.'),
+ 'C14': dict(ref='§4 C14', note=BASE + 'Claimed for the case where the previously trusted root is the shipped one (the general case falls under the recorded C03 root-persistence findings). Key lists of length 1 and 2 on either side; end-to-end 2-cycle history with one key per role; a native menu of list shapes (extended, truncated, re-ordered, replaced, unchanged) validates the list model on every run.'),
+ 'C15': dict(ref='§4 C15', note=BASE + 'File-system model: tokio::fs::write = open(O_TRUNC) then write; rename atomic; a created/truncated, incompletely written file does not parse; every datastore call may fail (ENOSPC/EIO) or be the last one before the process dies. History: clean cycle, faulted cycle, clean cycle; one root hop; temporary files the code creates become part of the tracked datastore state.'),
  'C05': dict(ref='§4 C05', note=BASE + 'Sha-256 is a function of the sequence of accepted chunks; <=1 (quick) / <=2 (thorough) chunks per file; delegation trees of depth <=2 (quick) / <=3 (thorough).'),
 }
 
